@@ -7,11 +7,15 @@ true`, and the argument-contract theorems `contract_f`) are in `Bee2V/Gen/C09Obl
 
 * `allocFailSafe_sound` — on EVERY path: a blob whose allocation failed is never used before it
   is re-assigned (`NoNullUse`); and if some blobCreate/blobResize on the path returned 0
-  (`IsAllocFailure`: events allocFail, resizeFail, resizeKeep) then the
+  (`IsAllocFailure`: events allocFail, resizeFail, resizeKeep, and calleeFail = an allocating
+  err_t callee whose result the code discards) then the
   function returns a value known to differ from ERR_OK and every blob it did obtain has been
   closed (`ClosesAll`: nothing is left allocated).
 * `verifyFirst_sound` — on every path that calls a verification routine (MAC / key-token
-  check), no write to the designated output precedes the first such call.
+  check), at every write to the designated output the authentication automaton `vstate` of the
+  trace so far is `passed`: the most recent verification call precedes the write, its RESULT has been
+  tested (directly, or through `code` with no assignment in between) and the test said success.
+* `classes_complete` — the class constants seen on any path are among the syntactic `Cfg.classes`.
 * `releaseSafe_sound` — on every path that does not return a value known to be ERR_OK, every
   write to the designated output is followed by a zeroisation of it (in particular: paths that
   fail before the first write never touch it).
@@ -61,14 +65,21 @@ theorem verifyFirst_sound (d : Nat) (c : Cfg) (h : verifyFirst d c = true) :
   simp only [verifyFirst, Bool.and_eq_true, List.all_eq_true] at h
   have hm := reach_sound hx [St.init] h.1 (by simp)
   have hp := h.2 (s', r) hm
-  simp only [Bool.or_eq_true, Bool.not_eq_true'] at hp
+  simp only [Bool.or_eq_true, Bool.not_eq_true', decide_eq_true_eq] at hp
   have hf := exec_fold hx
   subst hf
-  rcases hp with h0 | h0
-  · intro hmem
-    rw [vfy_of_mem tr St.init hmem] at h0
-    cases h0
-  · exact verifyFirst_of_fold d tr St.init rfl h0
+  exact verifyFirst_of_fold d tr hp
+
+/-- Every error-class constant that a path returns or assigns to `code` (event `cls n`) occurs
+syntactically in the skeleton: `Cfg.classes` over-approximates what the function can produce by
+itself, which is what the `class_<f>_<E>` obligations (documented class E is producible) rely on. -/
+theorem classes_complete (c : Cfg) (s s' : St) (tr : List Ev) (o : Out) (hx : Exec c s tr s' o) :
+    ∀ n, Ev.cls n ∈ tr → n ∈ c.classes := by
+  intro n hn
+  rcases exec_events hx _ hn with h | ⟨x, h⟩
+  · simp only [Cfg.classes, List.mem_filterMap]
+    exact ⟨_, h, rfl⟩
+  · cases h
 
 /-! non-vacuity: small skeletons on which the checkers say yes / no -/
 
@@ -82,13 +93,24 @@ example : allocFailSafe (Cfg.seqs [.alloc 0, .ifnull 0 (.ret (.err 110)) .skip, 
 /-- `M = blobResize(M, n)` failing loses the old block -/
 example : allocFailSafe (Cfg.seqs [.atom [.setnull 0], .loop (Cfg.seqs [.resize 0, .ifnull 0 (.ret (.err 110)) .skip]),
     .atom [.close 0], .ret .ok]) = false := by decide
+/-- the result of an allocating err_t callee is discarded -/
+example : allocFailSafe (Cfg.seqs [.atom [.call 0, .calleeFail 0], .ret .ok]) = false := by decide
 /-- verify, then write (DWP shape) / write, verify, zeroise on failure (KWP shape) / no zeroisation -/
 example : releaseSafe 0 (Cfg.seqs [.ite 0 (.ret (.err 511)) .skip, .atom [.wr 0], .ret .ok]) = true := by decide
 example : releaseSafe 0 (Cfg.seqs [.atom [.wr 0], .ite 0 (Cfg.seqs [.atom [.zero 0], .ret (.err 513)]) .skip, .ret .ok]) = true := by decide
 example : releaseSafe 0 (Cfg.seqs [.atom [.wr 0], .ite 0 (.ret (.err 513)) .skip, .ret .ok]) = false := by decide
 /-- verification first / write before the verification call -/
-example : verifyFirst 0 (Cfg.seqs [.atom [.call 0], .atom [.vfy], .ifcode (.ret .code) .skip, .atom [.wr 0], .ret .ok]) = true := by decide
-example : verifyFirst 0 (Cfg.seqs [.atom [.wr 0], .atom [.call 0], .atom [.vfy], .ifcode (.ret .code) .skip, .ret .ok]) = false := by decide
+example : verifyFirst 0 (Cfg.seqs [.atom [.call 0], .atom [.vcall true], .ifcode (.ret .code) .skip, .atom [.wr 0], .ret .ok]) = true := by decide
+example : verifyFirst 0 (Cfg.seqs [.atom [.wr 0], .atom [.call 0], .atom [.vcall true], .ifcode (.ret .code) .skip, .ret .ok]) = false := by decide
+/-- the result of the verification call is NOT tested before the write / is overwritten first -/
+example : verifyFirst 0 (Cfg.seqs [.atom [.call 0], .atom [.vcall true], .atom [.wr 0], .ifcode (.ret .code) .skip, .ret .ok]) = false := by decide
+example : verifyFirst 0 (Cfg.seqs [.atom [.call 0], .atom [.vcall true], .atom [.code .unk], .ifcode (.ret .code) .skip, .atom [.wr 0], .ret .ok]) = false := by decide
+/-- boolean verifier tested at once: `if (!V(..)) return ERR_BAD_MAC;` then write -/
+example : verifyFirst 0 (Cfg.seqs [.atom [.vcall false], .ite 0 (Cfg.seqs [.atom [.vres false], .ret (.err 511)]) (.atom [.vres true]), .atom [.wr 0], .ret .ok]) = true := by decide
+/-- the write sits in the arm taken when the verifier said NO -/
+example : verifyFirst 0 (Cfg.seqs [.atom [.vcall false], .ite 0 (Cfg.seqs [.atom [.vres false], .atom [.wr 0], .ret (.err 511)]) (.atom [.vres true]), .ret .ok]) = false := by decide
+example : vstate [.vcall true, .test .ok] = .passed ∧ vstate [.vcall true, .code .ok, .test .ok] = .failed ∧
+    vstate [.vcall false, .vres true, .vcall false] = .pending := by decide
 /-- the hypotheses of the theorems are satisfiable by a path with a failed allocation -/
 example : Exec (Cfg.seqs [.alloc 0, .ifnull 0 (.ret (.err 110)) .skip, .atom [.close 0], .ret .ok])
     St.init [.allocFail 0] (St.init.apply (.allocFail 0)) (.ret .bad) := by
